@@ -651,6 +651,18 @@ fn c16(cli: &Cli) {
             tokio::time::sleep(Duration::from_millis(1500)).await;
             let _ = klukai_agent::verif::handle_sync(&r.agent, &r.bookie, &r.transport).await;
             tokio::time::sleep(Duration::from_millis(300)).await;
+            // the expected contact of a same-cluster member is waited for (a slow machine must not
+            // turn into an alarm); the forbidden contacts are judged on whatever happened until then
+            if own.iter().any(|o| *o) {
+                let start = Instant::now();
+                while start.elapsed() < Duration::from_secs(10) {
+                    let now: Vec<u64> = counters.iter().map(|c| c.load(std::sync::atomic::Ordering::SeqCst)).collect();
+                    if (0..3).any(|i| own[i] && now[i] > before[i]) {
+                        break;
+                    }
+                    tokio::time::sleep(Duration::from_millis(20)).await;
+                }
+            }
             let after: Vec<u64> = counters.iter().map(|c| c.load(std::sync::atomic::Ordering::SeqCst)).collect();
             evals += 1;
             for i in 0..3 {
